@@ -147,7 +147,8 @@ def spawned_before(p1, p2):
     return 0 < (p2 - p1) % PID_MAX < PID_MAX // 2
 
 
-def oneshot(rng, T, roots, fail=(), gated=True, tag='os', cap=None, hang_s=None, with_inputs=True, second_run=True, pre_args=(), hold_s=0.0):
+def oneshot(rng, T, roots, fail=(), gated=True, tag='os', cap=None, hang_s=None, with_inputs=True, second_run=True, pre_args=(), hold_s=0.0,
+            implied_p=0.3):
     """Runs `zinoma <roots>` once. Returns (obs, verdicts): verdicts = {property_id: [text, ...]} for violated properties."""
     d = vf.scratch_dir(tag)
     spec = {}
@@ -161,6 +162,21 @@ def oneshot(rng, T, roots, fail=(), gated=True, tag='os', cap=None, hang_s=None,
             with open(os.path.join(d, 'in', t, 'src.txt'), 'w') as f:
                 f.write('input of %s\n' % t)
             spec[t]['input'] = ['paths: [in/%s]' % t]
+    # some build -> build dependencies are declared through `X.output` in the input instead of (or next to) `dependencies`:
+    # the edge is the same for the engine (C01); X then declares an output file that its script writes
+    implied = []
+    if with_inputs:
+        for t, s in T.items():
+            if s['kind'] != 'build':
+                continue
+            for dd in list(dict.fromkeys(s['deps'])):
+                if T[dd]['kind'] == 'build' and rng.random() < implied_p:
+                    spec[dd]['output'] = ['paths: [out/%s.txt]' % dd]
+                    spec[dd]['effect'] = 'mkdir -p out; echo "built" > out/%s.txt' % dd
+                    spec[t]['input'] = spec[t].get('input', []) + ['%s.output' % dd]
+                    if implied_p >= 1.0 or rng.random() < 0.7:
+                        spec[t]['deps'] = [x for x in spec[t]['deps'] if x != dd]      # the edge exists through the input only
+                    implied.append((t, dd))
     proj = blackbox.Project(d, spec)
     # recorded state of targets outside the closure must never be touched (C08): plant a file for each
     clo0 = closure(T, roots)
@@ -335,6 +351,7 @@ def oneshot(rng, T, roots, fail=(), gated=True, tag='os', cap=None, hang_s=None,
         if not judged:
             judge_leftover()
         obs = {'outcome': outcome, 'exit_code': run.exit_code, 'trace': tr, 'roots': list(roots), 'fail': {t: fail[t] for t in sorted(fail)},
+               'dependencies_declared_through_X.output': implied,
                'targets': T, 'gated': gated, 'stderr_tail': err[-600:], 'keepalive_expected': keepalive,
                'exit_latency_after_signal': (run.exit_time - t_sig) if (t_sig and run.exit_time) else None,
                'second_run': second, 'pre_args': list(pre_args)}
